@@ -101,6 +101,8 @@ func c10Src(t *btmpl, elems []belem) string {
 			sb.WriteString("{% set sv = \"" + e.text + "\" %}")
 		case "inc":
 			sb.WriteString("{% include \"" + e.text + "\" %}")
+		case "rawignored":
+			sb.WriteString(e.text)
 		case "block":
 			b := "{% block " + e.name + " %}" + c10Src(t, t.defs[e.name]) + "{% endblock %}"
 			switch e.wrap {
@@ -319,7 +321,13 @@ func (g *c10Gen) child(parent *btmpl, chain []*btmpl, file string) *btmpl {
 	}
 	// ignored top-level content
 	for i := g.r.Intn(3); i > 0; i-- {
-		switch g.r.Intn(3) {
+		switch g.r.Intn(5) {
+		case 3, 4:
+			// definitions and bindings written outside blocks are ignored like everything else out there: the names the
+			// chain's blocks print (v, sv, i) keep meaning what the context / the blocks themselves say
+			t.doc = append(t.doc, belem{kind: "rawignored", text: g.r.Pick([]string{
+				`{% macro v() %}SHADOW{% endmacro %}`, `{% macro sv() %}SHADOW{% endmacro %}`, `{% macro i() %}SHADOW{% endmacro %}`, `{% macro tick() %}SHADOW{% endmacro %}`,
+				`{% set v = "SHADOW" %}`, `{% set sv = "SHADOW" %}`, `{% import "/shadowlib.tpl" v %}`, `{% import "/shadowlib.tpl" v as sv, v %}`, `{% cycle "SHADOW" "b" as v %}`, `{% widthratio 1 2 100 as sv %}`})})
 		case 0:
 			t.doc = append(t.doc, g.text(t.level, "ignored"))
 		case 1:
@@ -494,6 +502,7 @@ func c10Run(c *C) {
 	for _, t := range all {
 		files[t.file] = t.source()
 	}
+	files["/shadowlib.tpl"] = `{% macro v() export %}SHADOW{% endmacro %}`
 	set, _ := newSet(files)
 	useCache := c.R.Chance(40)
 	get := func(name string) (*pongo2.Template, error) {
